@@ -124,7 +124,9 @@ def run(ctx):
     # ---- R-C05-2 length-equality obligations for zipped collections
     rows = guard_table(ctx, v)
     atoms = [a for r in rows for a in r['atoms'] if r['eff'] != 'bypass']
-    lr = any(a[0] == 'cmp' and a[1] == 'Eq' and 'li' in a[2] + a[3] and 'ri' in a[2] + a[3] and 'len(' in a[2] and 'len(' in a[3] for a in atoms)
+    from . import msm_pairs
+    lr = any({next(iter(fa)) if len(fa) == 1 else None, next(iter(fb)) if len(fb) == 1 else None} == {'len(each(p3).li)', 'len(each(p3).ri)'} and r['eff'] != 'bypass'
+             for (r, fa, fb) in msm_pairs.len_eq_guards(ctx, v))
     rep.check(lr, 'R-C05-2', 'R-C05-2/len-L-eq-len-R', 'L and R are zipped under a dominating len(L) == len(R) guard', 'no guard makes zip(L, R) exhaustive', ctx.where(v))
     cons = msm.consistency_fn(ctx, 'R-C05-2')
     if cons is not None:
